@@ -8,6 +8,16 @@ import json, os, subprocess, sys, threading
 from concurrent.futures import ThreadPoolExecutor
 from pathlib import Path
 
+
+def _git_wt(*args, check=False):
+    """git worktree add/remove under a machine-wide file lock (git's worktree bookkeeping is not safe against concurrent add/remove)"""
+    import fcntl
+    os.makedirs("/tmp/vwt", exist_ok=True)
+    with open("/tmp/vwt/.wtlock", "w") as lk:
+        fcntl.flock(lk, fcntl.LOCK_EX)
+        return subprocess.run(["git", "-C", "/repo", "worktree", *args], capture_output=True, text=True, check=check)
+
+
 head = subprocess.run(["git", "-C", "/repo", "rev-parse", "HEAD"], capture_output=True, text=True).stdout.strip()
 base_file = Path(f"/tmp/vwt_baseline_{head[:10]}.json")
 if not base_file.exists():
@@ -37,8 +47,8 @@ def one(d: Path):
     wt = Path("/tmp/vwt") / name
     wt.parent.mkdir(exist_ok=True)
     with _wt_lock:  # git's worktree bookkeeping is not safe against concurrent add/remove
-        subprocess.run(["git", "-C", "/repo", "worktree", "remove", "--force", str(wt)], capture_output=True)
-        subprocess.run(["git", "-C", "/repo", "worktree", "add", "-q", "--detach", str(wt), "HEAD"], check=True)
+        _git_wt("remove", "--force", str(wt))
+        _git_wt("add", "-q", "--detach", str(wt), "HEAD", check=True)
     try:
         r = subprocess.run(["git", "-C", str(wt), "apply", "--whitespace=nowarn", str((d / "patch.diff").resolve())], capture_output=True, text=True)
         base, extra = baseline, {}
@@ -64,7 +74,7 @@ def one(d: Path):
         return name, dict({"applies": True, "fired": fired}, **extra)
     finally:
         with _wt_lock:
-            subprocess.run(["git", "-C", "/repo", "worktree", "remove", "--force", str(wt)], capture_output=True)
+            _git_wt("remove", "--force", str(wt))
 
 
 dirs = [Path(a) for a in sys.argv[1:]]
